@@ -93,6 +93,10 @@ pub fn gen_library(seed: u64, n: usize) -> BTreeMap<String, String> {
     lib.insert("cyc1".to_string(), "# Cycle one\n\n[zero](cyc0)\n\n## Inner\n\ntext\n".to_string());
     lib.insert("cycroot0".to_string(), "# Root zero\n\n[zero](cyc0)\n".to_string());
     lib.insert("d1/cycroot1".to_string(), "# Root one\n\n[one](../cyc1)\n".to_string());
+    // a note that links to itself (its own links count for its rank) and a chain with an empty heading in it
+    // (symbol names are the heading texts of the chain, empty ones included)
+    lib.insert("selfref".to_string(), "# Self linker\n\ntext [me](selfref) and [me too](selfref)\n".to_string());
+    lib.insert("emptyhead".to_string(), "# Projects\n\n##\n\n### Alpha\n\ntext\n".to_string());
     // notes of identical byte length that embed the same note, with equally long titles: every
     // tie-break that falls back on load order or node ids shows here
     lib.insert("shared/leaf".to_string(), "# Shared leaf\n\nleaf text\n".to_string());
@@ -224,8 +228,80 @@ pub fn cmd_dump(args: &[String]) -> i32 {
     let refs = lsp_references(&lib);
     d["digests"]["lsp_references"] = json!(digest(&refs));
     d["full"]["lsp_references"] = refs;
+    // the outline the server lists for every note (textDocument/documentSymbol): names and lines, in the order given
+    let syms = lsp_document_symbols(&lib);
+    // (recorded under one name whichever way the server got to its state: the judge compares all observations)
+    let resent = lsp_document_symbols_after_resend(&lib);
+    d["resend_changes_symbols"] = json!(resent != syms);
+    d["digests"]["lsp_document_symbols"] = json!(digest(&syms));
+    d["full"]["lsp_document_symbols"] = syms;
     std::fs::write(&args[5], serde_json::to_string(&d).unwrap()).unwrap();
     0
+}
+
+fn lsp_document_symbols(lib: &BTreeMap<String, String>) -> Value {
+    use iwes::router::server::Server;
+    use iwes::router::{LspClient, ServerConfig};
+    use lsp_types::{DocumentSymbolParams, PartialResultParams, TextDocumentIdentifier, Url, WorkDoneProgressParams};
+    let state: HashMap<String, String> = lib.iter().map(|(k, v)| (k.clone(), v.clone())).collect();
+    let server = Server::new(ServerConfig {
+        base_path: "/basepath".to_string(),
+        state,
+        sequential_ids: None,
+        configuration: Default::default(),
+        lsp_client: LspClient::Unknown,
+    });
+    let mut out = serde_json::Map::new();
+    for k in lib.keys() {
+        let uri = Url::parse(&format!("file:///basepath/{}.md", k)).unwrap();
+        let syms = server.handle_document_symbols(DocumentSymbolParams {
+            text_document: TextDocumentIdentifier { uri },
+            work_done_progress_params: WorkDoneProgressParams::default(),
+            partial_result_params: PartialResultParams::default(),
+        });
+        if syms.len() > 1 {
+            out.insert(k.clone(), json!(syms.iter().map(|s| format!("{}@{}:{}", s.name, s.location.uri, s.location.range.start.line)).collect::<Vec<_>>()));
+        }
+    }
+    Value::Object(out)
+}
+
+/// the same outlines after some notes were sent again, unchanged, by didChange: an edit that changes no text must
+/// change no answer
+fn lsp_document_symbols_after_resend(lib: &BTreeMap<String, String>) -> Value {
+    use iwes::router::server::Server;
+    use iwes::router::{LspClient, ServerConfig};
+    use lsp_types::{DidChangeTextDocumentParams, DocumentSymbolParams, PartialResultParams, TextDocumentContentChangeEvent, TextDocumentIdentifier, Url, VersionedTextDocumentIdentifier, WorkDoneProgressParams};
+    let state: HashMap<String, String> = lib.iter().map(|(k, v)| (k.clone(), v.clone())).collect();
+    let mut server = Server::new(ServerConfig {
+        base_path: "/basepath".to_string(),
+        state,
+        sequential_ids: None,
+        configuration: Default::default(),
+        lsp_client: LspClient::Unknown,
+    });
+    // (a dozen notes spread over the library, the last key first: their nodes get new ids, out of key order)
+    let step = (lib.len() / 12).max(1);
+    for (k, text) in lib.iter().rev().step_by(step) {
+        let uri = Url::parse(&format!("file:///basepath/{}.md", k)).unwrap();
+        server.handle_did_change_text_document(DidChangeTextDocumentParams {
+            text_document: VersionedTextDocumentIdentifier { uri, version: 2 },
+            content_changes: vec![TextDocumentContentChangeEvent { range: None, range_length: None, text: text.clone() }],
+        });
+    }
+    let mut out = serde_json::Map::new();
+    for k in lib.keys() {
+        let uri = Url::parse(&format!("file:///basepath/{}.md", k)).unwrap();
+        let syms = server.handle_document_symbols(DocumentSymbolParams {
+            text_document: TextDocumentIdentifier { uri },
+            work_done_progress_params: WorkDoneProgressParams::default(),
+            partial_result_params: PartialResultParams::default(),
+        });
+        if syms.len() > 1 {
+            out.insert(k.clone(), json!(syms.iter().map(|s| format!("{}@{}:{}", s.name, s.location.uri, s.location.range.start.line)).collect::<Vec<_>>()));
+        }
+    }
+    Value::Object(out)
 }
 
 fn lsp_references(lib: &BTreeMap<String, String>) -> Value {
@@ -266,14 +342,65 @@ pub fn cmd_search(args: &[String]) -> i32 {
     let n: usize = args[1].parse().unwrap();
     let lib = gen_library(seed, n);
     let state: HashMap<String, String> = lib.into_iter().collect();
+    // how often every note is referred to, counted on the texts themselves: every "](url)" of every note,
+    // resolved from the linking note's directory ("an empty query lists the most-referenced notes first")
+    let mut refs: HashMap<String, usize> = HashMap::new();
+    for (k, text) in state.iter() {
+        let dir: Vec<&str> = k.split('/').collect::<Vec<_>>().split_last().map(|(_, d)| d.to_vec()).unwrap_or_default();
+        // (a reference is a linking block - here: a line - however many links to the note it holds)
+        for line in text.lines() {
+            let mut seen: Vec<String> = vec![];
+            let mut rest = line;
+            while let Some(at) = rest.find("](") {
+                rest = &rest[at + 2..];
+                let Some(end) = rest.find(')') else { break };
+                let url = rest[..end].trim_end_matches(".md");
+                let mut segs: Vec<&str> = dir.clone();
+                for part in url.split('/') {
+                    match part {
+                        "" | "." => {}
+                        ".." => {
+                            segs.pop();
+                        }
+                        p => segs.push(p),
+                    }
+                }
+                let target = segs.join("/");
+                if !seen.contains(&target) {
+                    *refs.entry(target.clone()).or_insert(0) += 1;
+                    seen.push(target);
+                }
+            }
+        }
+    }
+    let starts_with_heading: HashMap<String, bool> = state.iter().map(|(k, t)| (k.clone(), t.starts_with('#'))).collect();
+    let server_state = state.clone();
     let db = Database::new(state, false, MarkdownOptions::default());
     let all = db.graph().search_paths();
     let matcher = SkimMatcherV2::default();
+    // the names the language server gives the same entries (workspace/symbol)
+    let server = {
+        use iwes::router::server::Server;
+        use iwes::router::{LspClient, ServerConfig};
+        Server::new(ServerConfig {
+            base_path: "/basepath".to_string(),
+            state: server_state,
+            sequential_ids: None,
+            configuration: Default::default(),
+            lsp_client: LspClient::Unknown,
+        })
+    };
     let mut out = std::io::BufWriter::new(std::fs::File::create(&args[2]).expect("out"));
     for q in ["", "Title 1", "Same title", "Section 0", "Twin", "zzzz", "t"] {
         let listing: Vec<Value> = all
             .iter()
-            .map(|p| json!({"score": matcher.fuzzy_match(&p.search_text, q).unwrap_or(0), "len": p.search_text.len(), "rank": p.node_rank}))
+            .map(|p| {
+                // the entry of a note's first heading carries the note's reference count, every other entry 0
+                let key = p.key.to_string();
+                let first = p.line == 0 && starts_with_heading.get(&key).copied().unwrap_or(false);
+                json!({"score": matcher.fuzzy_match(&p.search_text, q).unwrap_or(0), "len": p.search_text.len(), "rank": p.node_rank,
+                       "refs": if first { refs.get(&key).copied().unwrap_or(0) } else { 0 }})
+            })
             .collect();
         let mut used = vec![false; all.len()];
         let mut idx: Vec<i64> = vec![];
@@ -288,7 +415,33 @@ pub fn cmd_search(args: &[String]) -> i32 {
                 None => idx.push(-1),
             }
         }
-        writeln!(out, "{}", json!({"ev":"Search","seed":seed,"notes":n,"query":q,"empty":q.is_empty(),"all":listing,"returned":idx})).unwrap();
+        // "symbol names are the heading texts of the chain": the chain of every returned entry, joined with the
+        // separator the tool uses, against the names of workspace/symbol for the same query (entries whose name
+        // is empty are not listed)
+        let expected_names: Vec<String> = db
+            .global_search(q)
+            .iter()
+            .map(|r| r.path.ids().iter().map(|id| db.graph().get_text(*id).trim().to_string()).collect::<Vec<_>>().join(" \u{2022} "))
+            .filter(|name| !name.is_empty())
+            .collect();
+        let symbol_names: Vec<String> = {
+            use lsp_types::{PartialResultParams, WorkDoneProgressParams, WorkspaceSymbolParams, WorkspaceSymbolResponse};
+            match server.handle_workspace_symbols(WorkspaceSymbolParams {
+                query: q.to_string(),
+                work_done_progress_params: WorkDoneProgressParams::default(),
+                partial_result_params: PartialResultParams::default(),
+            }) {
+                WorkspaceSymbolResponse::Flat(v) => v.into_iter().map(|s| s.name).collect(),
+                WorkspaceSymbolResponse::Nested(v) => v.into_iter().map(|s| s.name).collect(),
+            }
+        };
+        let names_differ: Vec<Value> = (0..expected_names.len().max(symbol_names.len()))
+            .filter(|i| expected_names.get(*i) != symbol_names.get(*i))
+            .take(3)
+            .map(|i| json!([i, expected_names.get(i), symbol_names.get(i)]))
+            .collect();
+        writeln!(out, "{}", json!({"ev":"Search","seed":seed,"notes":n,"query":q,"empty":q.is_empty(),"all":listing,"returned":idx,
+                                    "symbols":symbol_names.len(),"names_differ":names_differ})).unwrap();
     }
     out.flush().unwrap();
     0
